@@ -53,7 +53,8 @@ REQUIRED_PROBES = {
               "finally_after_break", "finally_after_return",
               "finally_raises", "handler_raises", "uncaught_reaches_top",
               "stream_loop_body_error", "fault_in_finally",
-              "fault_in_handler", "return_of_call_raised_in_block"],
+              "fault_in_handler", "return_of_call_raised_in_block",
+              "catch_value_expression", "control_statement_in_finally"],
 }
 REQUIRED_PROBES["thorough"] = REQUIRED_PROBES["quick"]
 
@@ -85,9 +86,17 @@ class NestGen:
     def value(self):
         return self.rng.choice(ERR_VALUES)
 
-    def catch_value(self, raised):
+    def catch_value(self, raised, ctx=None):
         rng = self.rng
         r = rng.random()
+        if ctx and rng.random() < 0.25:
+            # a catch value computed from a variable: the same block can
+            # meet different catch values on different executions
+            if ctx.get("loopvar"):
+                return {"e": ["v", ctx["loopvar"]]}
+            if ctx.get("infn_def"):
+                return {"e": rng.choice([["v", "p"],
+                                         ["op", "+", ["v", "p"], 1]])}
         if raised is not None and r < 0.35:
             return raised
         if raised is not None and r < 0.5 and repr(raised) in EQUIV:
@@ -98,8 +107,13 @@ class NestGen:
             return "ERROR"
         return self.value()
 
-    def fail_stmt(self):
+    def fail_stmt(self, ctx=None):
         rng = self.rng
+        if ctx and rng.random() < 0.3:
+            if ctx.get("loopvar"):
+                return ["erre", ["v", ctx["loopvar"]]]
+            if ctx.get("infn_def"):
+                return ["erre", rng.choice([["v", "p"], 1, 2])]
         if rng.random() < 0.6:
             return ["err", self.value()]
         return [rng.choice(["undef", "div0", "idx", "badcall"])]
@@ -119,7 +133,7 @@ class NestGen:
         if r < 0.28:
             return self.mark("m")
         if r < 0.42:
-            return self.fail_stmt()
+            return self.fail_stmt(ctx)
         if r < 0.62 and depth < 4:
             return self.block(depth + 1, ctx)
         if r < 0.70 and depth < 4 and not ctx.get("nolp"):
@@ -210,7 +224,9 @@ class NestGen:
             if rng.random() < 0.2:
                 cv = None
             else:
-                cv = {"v": self.catch_value(raised)}
+                cv = self.catch_value(raised, ctx)
+                if not isinstance(cv, dict) or ("e" not in cv):
+                    cv = {"v": cv}
             h = [["mark", f"H{bid}.{i}"]]
             rr = rng.random()
             if rr < 0.2:
@@ -243,6 +259,15 @@ class NestGen:
                 fin.append(self.block(depth + 1, cfin))
             elif rr < 0.4:
                 fin.append(self.mark("f"))
+            elif rr < 0.55:
+                # a control statement directly inside the finally part: it
+                # must not swallow an error in flight nor end the part
+                ctl = [["brk"], ["cont"]] if ctx.get("loop") else []
+                if ctx.get("fn"):
+                    ctl.append(["ret", ["lit", self.value()]])
+                if ctl:
+                    fin.append(rng.choice(ctl))
+                    fin.append(self.mark("f"))
         return ["blk", body, catches, fin]
 
     def defblk(self, depth, ctx):
